@@ -114,6 +114,28 @@ theorem C07_guard_union (c : HdrCfg) (info : Extracted) (header h : Text)
   · simp only [hp, Bool.not_false, if_true] at hok
     cases hok
 
+/-- `create_header` on an existing header, contributors: a new header that shows contributors at
+    all reads back exactly the requested contributors **and** those of the old header — with or
+    without `--merge-copyrights` (which does not touch contributors). -/
+theorem C07_guard_union_contributors (c : HdrCfg) (info : Extracted) (header h : Text)
+    (hne : header ≠ []) (hok : createHeader c info header = .ok h) (hshown : (extractRaw h).con ≠ []) :
+    ∀ x, x ∈ (extractRaw header).con ∨ x ∈ info.con ↔ x ∈ (extractRaw h).con := by
+  unfold createHeader at hok
+  have he : header.isEmpty = false := by cases header <;> simp_all
+  simp only [he, Bool.false_eq_true, if_false] at hok
+  by_cases hp : (extractRaw header).lic.all c.parses = true
+  · simp only [hp, Bool.not_true, Bool.false_eq_true, if_false] at hok
+    have hok' : createNewHeader c
+        { lic := dedup (((extractRaw header).lic ++ info.lic).map c.normLic),
+          con := unionTexts (extractRaw header).con info.con,
+          cpr := if c.merge = true then mergeLines (unionTexts info.cpr (extractRaw header).cpr)
+                 else unionTexts info.cpr (extractRaw header).cpr } = .ok h := hok
+    intro x
+    rw [← C07_guard_contributors c _ h hok' hshown x]
+    exact mem_unionTexts.symm
+  · simp only [hp, Bool.not_false, if_true] at hok
+    cases hok
+
 /-! ### From the header to the file -/
 
 /-- **No success without read-back.**  Whenever the text-level `add_header_to_file` writes
